@@ -7,7 +7,12 @@
 //!   * a finite float x is the rational m * 2^e read off its bits (`parts64` / `parts32`); x * 10^9 is compared with integers in u128,
 //!   * `x as i64` (Rust's cast: truncation toward zero, exact for in-range x) is the specification of "whole seconds of x",
 //!   * `|x| - (trunc as f64)` is an exact subtraction for |x| < 2^53 (the definition of the fractional part, no rounding).
-//! The only relational expectations are those for mul_* / div_* / from_* (defined by the documentation as compositions).
+//! The only relational expectation is the one for from_secs_* (documented as the panicking form of try_from_secs_*).
+//!
+//! Measured and NOT in this group because CBMC does not finish within 20 minutes (Kani 0.68, cadical): the 1-ulp / 2-ulp accuracy of as_*_f*
+//! (an f64 division plus a 128-bit shift oracle), mul_f* / div_f* == try_from_secs_f*(factor * as_secs_f*) (two copies of the same float
+//! pipeline), div_duration_f64 / _f32 (sign, a / a == 1.0, correct rounding; even the f32 sign-only harness times out at 1200 s).
+//! They are bounded native checks in c12_sdur_float_native.
 use super::*;
 
 const TWO63: f64 = 9223372036854775808.0; // 2^63 = (i64::MAX as f64) = -(i64::MIN as f64)
@@ -278,28 +283,5 @@ fn c12_as_f32_sign_and_whole_seconds() {
     if d.nanos == 0 {
         if !millis && -16777216 <= d.secs && d.secs <= 16777216 { assert!(r as i64 == d.secs && (r as i64) as f32 == r); }
         if millis && -16000 <= d.secs && d.secs <= 16000 { assert!(r as i64 == d.secs * 1000 && (r as i64) as f32 == r); }
-    }
-}
-
-//@harness c12_div_duration_f32_sign_and_self
-//@target SignedDuration::div_duration_f32 (src/signed_duration.rs)
-//@prop C12
-//@tier thorough
-//@mode rel
-//@timeout 1200
-//@doc for every pair of well-formed durations a, b: a / b by div_duration_f32 is NaN exactly for 0 / 0, +-infinity exactly for (non-zero) / 0 with the sign of a, otherwise finite with the sign sign(a) * sign(b) and zero exactly when a is zero; a / a == 1.0 exactly -- full domain, bit-precise (correct rounding of the quotient for small counts, and the f64 variant: bounded native check c12_native_div_duration)
-#[kani::proof]
-fn c12_div_duration_f32_sign_and_self() {
-    let a = any_sdur();
-    let b = any_sdur();
-    let (ta, tb) = (tot(a), tot(b));
-    let pos = (ta > 0 && tb > 0) || (ta < 0 && tb < 0);
-    let r = a.div_duration_f32(b);
-    if tb == 0 {
-        if ta == 0 { assert!(r != r); } else if ta > 0 { assert!(r == f32::INFINITY); } else { assert!(r == f32::NEG_INFINITY); }
-    } else {
-        assert!(r == r && r != f32::INFINITY && r != f32::NEG_INFINITY);
-        assert!((r == 0.0) == (ta == 0) && (r > 0.0) == pos);
-        if ta == tb { assert!(r == 1.0); }
     }
 }
